@@ -245,7 +245,10 @@ def a4_numbers(ctx):
         ctx.ok('A4', 'a percentage prints as %<number>', 'absint', site=b.loc)
     elif pieces == ['A', '%']:
         ok = any(hir_accepts(h, '10%') for p, h in pfam)
-        (ctx.ok if ok else ctx.finding)('A4', 'percent/suffix-form', 'a percentage prints as <number>%', 'absint') if ok else ctx.finding('A4', 'percent/suffix-form', 'a percentage prints as <number>% which no percent regex reads', site=b.loc)
+        if ok:
+            ctx.ok('A4', 'a percentage prints as <number>%, which a percent regex reads', 'absint', site=b.loc)
+        else:
+            ctx.finding('A4', 'percent/suffix-form', 'a percentage prints as <number>% which no percent regex reads', site=b.loc)
     else:
         ctx.finding('A4', 'percent/template', 'PercentItem::print assembles %s' % (pieces,), site=b.loc)
 
